@@ -81,6 +81,21 @@ def check_case(case):
                     fail = "fixpoint: str(parse(%r)) = %r" % (s, str(q))
                 elif hash(q) != hash(p):
                     fail = "hash: %r parses to a point with another hash" % s
+                elif case.get("alt"):
+                    # the same instant in another offset (same representation
+                    # and precision form), written out right after
+                    p2 = M.make_point(case["alt"])
+                    s2 = str(p2)
+                    n2 = M.Native(cm, parser.parse(s2), allow24=True)
+                    np2 = M.Native(cm, p2, allow24=True)
+                    a2 = (np2.rep, np2.date, np2.h, np2.m, np2.s, np2.tzh, np2.tzm)
+                    b2 = (n2.rep, n2.date, n2.h, n2.m, n2.s, n2.tzh, n2.tzm)
+                    classes.append("same_instant_other_offset")
+                    if a2 != b2:
+                        fail = ("fields_alt: mode %s %s prints %r (parsed %r) "
+                                "right after the same instant written as %s" % (
+                                    mode, M.fmt_kw(case["alt"]), s2, b2,
+                                    M.fmt_kw(kw)))
             else:
                 fmt = case["fmt"]
                 if case["via"] == "dump_format":
@@ -134,6 +149,13 @@ def st_case(draw):
     kw["num_expanded_year_digits"] = xd
     route = draw(st.sampled_from(["str", "str", "format", "format", "format"]))
     case = {"mode": mode, "p": kw, "route": route}
+    inst = M.kw_instant(cm, kw)
+    if route == "str" and inst.denominator == 1 and M.kw_form(kw) == "hms" \
+            and draw(st.booleans()):
+        alt = G.respell(draw, cm, int(inst), reps=M.kw_rep(kw), allow24=False)
+        if -top < alt["year"] < top and (xd > 0 or 0 <= alt["year"] <= 9999):
+            alt["num_expanded_year_digits"] = xd
+            case["alt"] = alt
     if route == "format":
         nota = draw(st.sampled_from(["basic", "extended"]))
         form = M.kw_form(kw)
